@@ -185,18 +185,25 @@ local _lua_max_time = 60
 -- Lua sandbox.
 local _lua_current_max_time = nil
 
--- Reduces Lua timeout (used only for testing).  This is exposed to the
--- sandbox and may be called from hostile code.
+-- Set when the time limit of the current top-level call has been exceeded.
+-- Once set, the sandboxed pcall/xpcall re-raise instead of returning, so
+-- the timeout cannot be caught by the code being limited.
+local _lua_timed_out = false
+
+-- Arms the time limit.  This is called from Python for the outermost
+-- invocation only and is not visible inside the sandbox.
 local function _lua_set_timeout(timeout)
     if timeout ~= nil and timeout > 0.01 and timeout < _lua_max_time then
         _lua_current_max_time = timeout
     else
         _lua_current_max_time = _lua_max_time
     end
+    _lua_timed_out = false
     local start_time = os.time()
     debug.sethook(
         function()
             if os.time() > start_time + _lua_current_max_time then
+                _lua_timed_out = true
                 error("Lua timeout error")
             end
         end,
@@ -272,6 +279,28 @@ local _orig_tonumber = tonumber
 local _orig_type = type
 local _orig_unpack = unpack
 local _orig_xpcall = xpcall
+
+local function _rethrow_timeout(ok, ...)
+    if not ok and _lua_timed_out then
+        _orig_error("Lua timeout error", 0)
+    end
+    return ok, ...
+end
+
+local function _sandbox_pcall(f, ...)
+    return _rethrow_timeout(_orig_pcall(f, ...))
+end
+
+local function _sandbox_xpcall(f, handler)
+    -- Hooks are disabled while a message handler runs for an error raised
+    -- by the hook itself, so the handler is skipped once time is up.
+    return _rethrow_timeout(_orig_xpcall(f, function(e)
+        if _lua_timed_out then
+            return e
+        end
+        return handler(e)
+    end))
+end
 
 -- package is not really used anywhere in the Wiktionary module
 -- codebase, EXCEPT ja-translit uses package.loaders as a test
@@ -427,7 +456,7 @@ local function _lua_reset_env()
     env["_orig_next"] = _orig_next
     env["os"] = new_os
     env["pairs"] = _orig_pairs
-    env["pcall"] = _orig_pcall
+    env["pcall"] = _sandbox_pcall
     env["print"] = _orig_print
     env["rawequal"] = _orig_rawequal
     env["rawget"] = _orig_rawget
@@ -441,10 +470,8 @@ local function _lua_reset_env()
     env["tonumber"] = _orig_tonumber
     env["type"] = _orig_type
     env["unpack"] = _orig_unpack
-    env["xpcall"] = _orig_xpcall
+    env["xpcall"] = _sandbox_xpcall
     env["_lua_set_python_loader"] = _lua_set_python_loader
-    env["_lua_set_timeout"] = _lua_set_timeout
-    env["_lua_clear_timeout_hook"] = _lua_clear_timeout_hook
     env["_lua_io_flush"] = _lua_io_flush
     env["_lua_reset_env"] = _lua_reset_env
     env["_orig_format"] = _orig_format
@@ -478,4 +505,5 @@ _lua_reset_env()
 _lua_reset_env()
 -- Now we should be in the sandbox environment
 
-return { _lua_set_python_loader, _clear_loadData_cache }
+return { _lua_set_python_loader, _clear_loadData_cache,
+         _lua_set_timeout, _lua_clear_timeout_hook }
